@@ -154,7 +154,7 @@ def check_stats(ctx, case, got_rec, prefix, exp, what):
 
 
 KINDS = ["stats1", "stats1", "merge-fields-f", "merge-fields-c", "merge-fields-k", "count", "count-distinct", "count-distinct-u", "count-distinct-n", "count-similar", "uniq-c", "uniq-n", "uniq-a-c",
-         "step", "step-shift", "fraction", "histogram", "most-frequent", "least-frequent", "fill-down", "dsl-stats", "top"]
+         "step", "step-shift", "step-window", "step-window", "fraction", "histogram", "most-frequent", "least-frequent", "fill-down", "dsl-stats", "top"]
 
 
 @st.composite
@@ -328,6 +328,55 @@ def body(ctx, case):
                 elif not (isinstance(gv, (int, float)) and abs(gv - ev) <= 1e-9 * max(1, abs(ev))):
                     ctx.fail(case, "step: %s expected %r got %r (record %r)" % (k, ev, gv, r))
         nt = len(state) >= 1 and len(exp) >= 3
+    elif kind == "step-window":
+        # sliding-window averages, exponentially weighted moving averages (explicit and default weight), running products.
+        # With a look-ahead window records of different groups (and records lacking a group-by field) leave in a different order
+        # than they came in, so every record carries an index field and is matched by it.
+        B, Fw = case["ps"][0] if isinstance(case["ps"][0], int) else 1, (case["ps"][-1] if isinstance(case["ps"][-1], int) else 2)
+        B, Fw = B % 4, Fw % 4
+        alphas = [[], ["0.25"], ["0.1", "0.9"]][len(case["ps"]) % 3]
+        args = ["step", "-a", "slwin_%d_%d,ewma,rprod" % (B, Fw), "-f", "x"] + (["-d", ",".join(alphas)] if alphas else []) + (["-g", ",".join(gf)] if gf else [])
+        irows = [[["i", idx]] + list(r) for idx, r in enumerate(rows)]
+        got = run(ctx, case, args, irows)
+        if sorted(g.get("i") for g in got) != list(range(len(rows))):
+            ctx.fail(case, "step: records in %r, records out %r" % (list(range(len(rows))), [g.get("i") for g in got]))
+        got = {g["i"]: g for g in got}
+        seqs = collections.OrderedDict()
+        for idx, r in enumerate(rows):
+            d = dict(r)
+            if all(g in d for g in gf):
+                seqs.setdefault(tuple(d[g] for g in gf), []).append((idx, d.get("x")))
+        member = {}
+        for key, seq in seqs.items():
+            # "Sliding-window averages over m records back and n forward": the window counts the group's records, and those lacking the field contribute nothing
+            ew = {a: None for a in (alphas or ["0.5"])}
+            prod = Fraction(1)
+            for j, (idx, x) in enumerate(seq):
+                if x is None:
+                    continue
+                win = [Fraction(v) for _, v in seq[max(0, j - B):j + Fw + 1] if v is not None]
+                e = {"_%d_%d" % (B, Fw): float(sum(win) / len(win))}
+                prod *= Fraction(x)
+                e["_rprod"] = float(prod)
+                for a in ew:
+                    fa = Fraction(a)
+                    ew[a] = Fraction(x) if ew[a] is None else fa * Fraction(x) + (1 - fa) * ew[a]
+                    e["_ewma_" + a] = float(ew[a])
+                member[idx] = e
+        for idx, r in enumerate(rows):
+            g = got[idx]
+            e = member.get(idx)
+            extra = [k for k in g if k.startswith("x_")]
+            if e is None:
+                if extra:
+                    ctx.fail(case, "step: record %r lacks the group-by or value field but got stepper output %r" % (r, g))
+                continue
+            for suffix, ev in e.items():
+                gv = g.get("x" + suffix)
+                if not (isinstance(gv, (int, float)) and not isinstance(gv, bool) and abs(gv - ev) <= 1e-9 * max(1.0, abs(ev))):
+                    ctx.fail(case, "step %s: field x%s of record %d is %r, recomputation from the definition gives %r (args %r)" % (
+                        "sliding window" if suffix[1].isdigit() else suffix[1:], suffix, idx, gv, ev, args))
+        nt = any(sum(1 for _, v in sq if v is not None) >= 3 for sq in seqs.values())
     elif kind == "step-shift":
         xs = [dict(r).get("x", 0) for r in rows]
         src = [[["i", i], ["x", x]] for i, x in enumerate(xs)]
